@@ -35,13 +35,37 @@ impl SegmentFileWriter {
             header.set_payload_length(payload_length);
             header.set_record_id(record_id);
         }
+        #[cfg(feature = "verif")]
+        {
+            use std::os::fd::AsRawFd as _;
+            crate::verif::io::before_fd(
+                self.file.as_raw_fd(),
+                crate::verif::io::Kind::Append {
+                    data: header.to_vec(),
+                },
+            )?;
+        }
         self.file.write_all(&header)?;
+        #[cfg(feature = "verif")]
+        crate::verif::io::after();
         self.file_size += HEADER_SIZE as u64;
         Ok(())
     }
 
     pub fn write_payload(&mut self, payload: &[u8]) -> std::io::Result<()> {
+        #[cfg(feature = "verif")]
+        {
+            use std::os::fd::AsRawFd as _;
+            crate::verif::io::before_fd(
+                self.file.as_raw_fd(),
+                crate::verif::io::Kind::Append {
+                    data: payload.to_vec(),
+                },
+            )?;
+        }
         self.file.write_all(payload)?;
+        #[cfg(feature = "verif")]
+        crate::verif::io::after();
         // Calculate the next aligned position.
         let record_alignment = RECORD_ALIGNMENT as u64;
         let current_end = self.file_size + payload.len() as u64;
@@ -52,14 +76,31 @@ impl SegmentFileWriter {
         };
         // The reason we are setting the length here is because otherwise if we just seek and not
         // set the length, then the underlying file may not be extended.
+        #[cfg(feature = "verif")]
+        {
+            use std::os::fd::AsRawFd as _;
+            crate::verif::io::before_fd(
+                self.file.as_raw_fd(),
+                crate::verif::io::Kind::SetLen(next_pos),
+            )?;
+        }
         self.file.set_len(next_pos)?;
+        #[cfg(feature = "verif")]
+        crate::verif::io::after();
         self.file.seek(SeekFrom::Start(next_pos))?;
         self.file_size = next_pos;
         Ok(())
     }
 
     pub fn fsync(&mut self) -> std::io::Result<()> {
+        #[cfg(feature = "verif")]
+        {
+            use std::os::fd::AsRawFd as _;
+            crate::verif::io::before_fd(self.file.as_raw_fd(), crate::verif::io::Kind::FsyncData)?;
+        }
         self.file.sync_data()?;
+        #[cfg(feature = "verif")]
+        crate::verif::io::after();
         Ok(())
     }
 
